@@ -51,9 +51,13 @@ def generator(fname, key):
 try:
     sys.path.insert(0, os.path.dirname(os.path.abspath(__file__)))
     sys.modules.setdefault('gen_tables', sys.modules[__name__])
-    import gen_more  # noqa: F401  (registers more generators)
+    import glob, importlib
+    for f in sorted(glob.glob(os.path.join(os.path.dirname(os.path.abspath(__file__)), "gen_*.py"))):
+        m = os.path.basename(f)[:-3]
+        if m != "gen_tables":
+            importlib.import_module(m)   # registers more generators
 except ImportError:
-    pass
+    raise
 
 if __name__ == "__main__":
     t = json.load(open(sys.argv[1]))
